@@ -29,6 +29,9 @@ DEF = {
     "object_null_entry": ("Sub", "{d: null, a: 1}", {"a": 9, "d": 3}, "Sub", None),
     "list_of_objects_null_entry": ("[Sub!]", "[{d: null}, {a: 2}]", [{"a": 3, "d": 4}], "Sub", None),
     "object_nested_default": ("Sub", "{a: 1}", {"d": 5}, "Sub", None),
+    # an enum value that is a Python keyword INSIDE an object literal: the plain value "in", not the member name in_
+    "object_enum_keyword": ("Sub", "{c: in, a: 1}", {"c": "RED"}, "Sub", None),
+    "list_of_objects_enum_keyword": ("[Sub!]", "[{c: in}, {c: GREEN}]", [{"c": "RED"}], "Sub", None),
 }
 NAMES = {"plain": "amount", "camel": "firstName", "keyword": "from", "reserved": "schema", "under": "_hidden"}
 MC_CFG = """SPECIFICATION Spec
